@@ -781,6 +781,18 @@ def _ancestors(n):
     return ancestors(n)
 
 
+def _top_if(node):
+    """Outermost `if` statement containing `node` (itself if none)."""
+    top = node
+    n = node
+    while getattr(n, "_parent", None) is not None and \
+            not isinstance(n._parent, (ast.FunctionDef, ast.AsyncFunctionDef)):
+        n = n._parent
+        if isinstance(n, ast.If):
+            top = n
+    return top
+
+
 def _r4_setitem(ctx, f, m):
     base = text(m.base)
     pos = pat.inline(ctx, f, m.args[0])
@@ -789,20 +801,22 @@ def _r4_setitem(ctx, f, m):
         want = {("<=", new, "%s.coords[%s - 1]" % (base, pos)),
                 ("<=", "%s.coords[%s + 1]" % (base, pos), new)}
         got = set()
-        raising = []
-        pb = parent_block(m.stmt)
-        # the two neighbour tests live in an `if X._ordered:` block that
-        # precedes the store in the same block
-        for prev in (pb[0][:pb[1]] if pb else []):
-            if isinstance(prev, ast.If) and "_ordered" in text(prev.test):
-                for st in prev.body:
-                    if isinstance(st, ast.If) and any(
-                            isinstance(b, ast.Raise) for b in st.body):
-                        for t, pol in pat.conjuncts(st.test):
-                            p = pat.cmp_parts(ctx, f, t, pol)
-                            if p:
-                                got.add(p)
-                        raising.append(st)
+        from ..cfg import atomic_guards
+        g = cfg_of(f)
+        # comparisons under which a `raise` guarded by `_ordered` fires on
+        # the way to the store (whatever if / elif / else shape holds them)
+        for r in f.own_nodes():
+            if not isinstance(r, ast.Raise) or not g.can_reach(
+                    _top_if(r), m.stmt):
+                continue
+            ags = list(atomic_guards(r, asserts=False))
+            if not any("_ordered" in text(t) and pol for t, pol in ags):
+                continue
+            for t, pol in ags:
+                if pol:
+                    p = pat.cmp_parts(ctx, f, t, pol)
+                    if p:
+                        got.add(p)
         missing = want - got
         if not missing:
             ctx.ok("C01.R4", f, m.node, "(c) replace guarded by both "
